@@ -30,6 +30,8 @@ def run(repo, run, tier):
     from ..access import ClassModel
     from ..imodel import DS
     settings_reach_integrator(repo, run, ClassModel(repo, DS, "OdeSystem"), rule_id="C05.8")
+    error_measure(repo, run)
+
 
 
 def typestate(repo, run):
@@ -500,3 +502,113 @@ def nan_rejection(repo, run, rule_id="C05.7"):
                                            "computed from non-finite right-hand-side values is accepted and recorded, the proposed next step is NaN, and integrate() ends 'successfully' "
                                            "instead of raising the integration-failure error" % (sorted(t), src(redo)))
     run.judged(rid, "return sites of update_timestep analysed: %d" % len(results), ok=True)
+
+
+# ------------------------------------------------------------------------------------------------
+def error_measure(repo, run, rule_id="C05.9"):
+    """'error bounded by a constant times (atol + rtol*|y|)' for EVERY component of the state, whatever its shape: the number the controller accepts or
+    rejects a step on has to grow when the scaled error of ANY component grows.  The measure is abstracted by (sense, coverage): sense says whether the
+    value increases (+) or decreases (-) when errors increase, coverage whether it still depends on every element (all), on each element / row separately
+    (each), or only on the best row (best).  reciprocal flips the sense; norm/sum/max of a '+' value keep all elements in play; max of a '-' value (or min
+    of a '+' value) keeps only the most ACCURATE row."""
+    rid = run.rule(rule_id, "update_timestep: the scalar the step controller works with is an order-reversing function of the scaled error of EVERY component "
+                            "(abstract interpretation over (sense, coverage): full reductions of |error/tolerance| and reciprocals of them; a max over "
+                            "reciprocals / min over errors of rows is reported)", floor=1)
+    TPL = "desolver/integrators/integrator_template.py"
+    fn = repo.get(TPL, "IntegratorTemplate.update_timestep")
+    run.analysed_fn(TPL, fn)
+    env = inline_locals(fn)
+    # the error estimate: the local bound from solver_dict['diff']
+    diffs = [n for n, v in env.items() if isinstance(v, ast.Subscript) and isinstance(v.slice, ast.Constant) and v.slice.value == "diff"]
+    if not diffs:
+        raise AnalysisError("update_timestep: the local holding solver_dict['diff'] was not found")
+    dname = diffs[0]
+
+    class Unknown(Exception):
+        pass
+
+    def absval(e, depth=0):
+        """-> (sense, coverage) or None when the expression does not depend on the error estimate"""
+        if depth > 12:
+            raise Unknown(src(e)[:60])
+        if isinstance(e, ast.Name):
+            if e.id == dname:
+                return ("+", "each")
+            if e.id in env:
+                return absval(env[e.id], depth + 1)
+            return None
+        if isinstance(e, (ast.Constant, ast.Attribute)):
+            return None
+        if isinstance(e, ast.Subscript):
+            return absval(e.value, depth + 1) if not isinstance(e.value, ast.Attribute) else None
+        if isinstance(e, ast.BinOp):
+            l, r = absval(e.left, depth + 1), absval(e.right, depth + 1)
+            if l is None and r is None:
+                return None
+            if isinstance(e.op, ast.Div):
+                if r is None:
+                    return l
+                if l is None:
+                    return ("-" if r[0] == "+" else "+", r[1])
+            if isinstance(e.op, ast.Mult) and (l is None or r is None):
+                return l or r
+            if isinstance(e.op, ast.Pow) and r is None:
+                c = None
+                try:
+                    c = const_value(e.right)
+                except Exception:
+                    pass
+                if c is not None and c > 0:
+                    return l
+                if c is not None and c < 0:
+                    return ("-" if l[0] == "+" else "+", l[1])
+            raise Unknown(src(e)[:60])
+        if isinstance(e, ast.UnaryOp):
+            return absval(e.operand, depth + 1)
+        if isinstance(e, ast.Call):
+            f = (fname(e) or "").split(".")[-1]
+            args = [absval(a, depth + 1) for a in e.args]
+            a0 = args[0] if args else None
+            if a0 is None and not any(args):
+                return None
+            axis = next((k.value for k in e.keywords if k.arg in ("axis", "dim")), None)
+            if axis is None and f in ("norm", "sum", "max", "amax", "min", "amin", "mean") and len(e.args) > 1 and not (isinstance(e.args[1], ast.Constant) and e.args[1].value is None):
+                axis = e.args[1] if f != "norm" else (e.args[2] if len(e.args) > 2 else None)
+            partial = axis is not None and not (isinstance(axis, ast.Constant) and axis.value is None)
+            if f in ("abs", "absolute", "atleast_1d", "asarray", "ravel", "reshape", "flatten", "sqrt", "square", "nan_to_num", "astype", "to_float", "float", "copy"):
+                return a0
+            if f in ("reciprocal",):
+                return ("-" if a0[0] == "+" else "+", a0[1])
+            if f in ("norm", "sum", "mean"):
+                if a0[0] != "+":
+                    raise Unknown("a sum/norm of reciprocals: " + src(e)[:60])
+                return ("+", "each" if partial else ("all" if a0[1] in ("each", "all") else a0[1]))
+            if f in ("max", "amax", "min", "amin"):
+                keeps_worst = (f in ("max", "amax")) == (a0[0] == "+")
+                if partial:
+                    return (a0[0], "each" if keeps_worst and a0[1] in ("each", "all") else "best")
+                return (a0[0], ("all" if a0[1] in ("each", "all") else a0[1]) if keeps_worst else "best")
+            if f in ("maximum", "minimum", "where"):
+                vals = [a for a in args if a is not None]
+                if len(vals) == 1:
+                    return vals[0]
+            raise Unknown("call %s" % src(e)[:60])
+        raise Unknown(type(e).__name__)
+
+    # the measure: every local that the correction factor `corr` is computed from and that depends on the error estimate
+    targets = [st for st in walk_no_nested(fn) if isinstance(st, ast.Assign) and isinstance(st.targets[0], ast.Name) and st.targets[0].id.startswith("epsilon_current")]
+    if not targets:
+        raise AnalysisError("update_timestep: the error measure (epsilon_current) was not found")
+    for st in targets:
+        try:
+            v = absval(st.value)
+        except Unknown as e:
+            raise AnalysisError("update_timestep: the error measure `%s` is outside the (sense, coverage) domain (%s)" % (src(st)[:80], e))
+        ok = v is not None and v[1] == "all"
+        run.judged(rid, "`%s`: %s" % (src(st)[:110], "does not depend on the error estimate" if v is None else "sense %s, coverage %s" % v), ok=ok)
+        if not ok:
+            why = "does not depend on the error estimate at all" if v is None else (
+                "depends only on the most ACCURATE row / element of the state (a max over reciprocals of row errors, or a min over row errors): a step is accepted and the next "
+                "one sized by the easiest component, the harder components are recorded with errors orders of magnitude above the tolerances, and no step is rejected"
+                if v[1] == "best" else "is not reduced to one number over the whole state (coverage: %s)" % v[1])
+            run.report(rule_id, TPL, st, "the error measure of the step controller %s" % why)
